@@ -18,7 +18,7 @@ from harness.core import Prop
 EXC = {'BaseException': BaseException, 'Exception': Exception, 'TypeError': TypeError,
        'AttributeError': AttributeError, 'ValueError': ValueError, 'LookupError': LookupError,
        'KeyError': KeyError, 'AssertionError': AssertionError, 'KeyboardInterrupt': KeyboardInterrupt,
-       'SystemExit': SystemExit}
+       'SystemExit': SystemExit, 'NotImplementedError': NotImplementedError}
 EXC_NAME = {v: k for k, v in EXC.items()}
 RAISABLE = ['ValueError', 'KeyError', 'LookupError', 'Exception', 'KeyboardInterrupt', 'SystemExit', 'AssertionError']
 
@@ -249,8 +249,9 @@ def catalog():
         return os.path.abspath(os.path.realpath(p))
 
     def tar_names(p):
-        with tarfile.open(p) as t:
-            return sorted(t.getnames())
+        with open(p, 'rb') as f:
+            with tarfile.open(p, fileobj=f) as t:
+                return sorted(t.getnames())
 
     C = [
         ('MatchesRegex', lambda: M.MatchesRegex('a+b'), lambda v: re.match('a+b', v) is not None),
